@@ -2,6 +2,7 @@ package props
 
 import (
 	"fmt"
+	"path/filepath"
 	"strconv"
 	"strings"
 	"testing"
@@ -140,6 +141,9 @@ func checkC17(c PairCase, r *rec.Rec) error {
 	}
 	if rerr != nil {
 		return rec.Violated("v1 cannot read its own rendering: %v\ntext:\n%s", rerr, text)
+	}
+	if err := v1FileAgrees("jd", text, d2); err != nil {
+		return err
 	}
 	if t2 := d2.Render(); t2 != text {
 		return rec.Violated("v1 re-rendering differs\nfirst:\n%s\nsecond:\n%s", text, t2)
@@ -368,6 +372,9 @@ func checkC18(c PairCase, r *rec.Rec) error {
 		if rerr != nil {
 			return rec.Violated("v1 cannot read its own JSON Patch: %v\npatch: %s", rerr, ptext)
 		}
+		if err := v1FileAgrees("patch", ptext, d2); err != nil {
+			return err
+		}
 		out := v1Patch(v1Node(c.A), d2)
 		if !out.OK() {
 			return rec.Violated("v1: its own JSON Patch, read back, %s on a\npatch: %s\nnative diff:\n%s", out.word(), ptext, native)
@@ -422,6 +429,9 @@ func checkC18(c PairCase, r *rec.Rec) error {
 		}
 		if rerr != nil {
 			return viol("v1 cannot read its own merge patch %s: %v", mtext, rerr)
+		}
+		if err := v1FileAgrees("merge", mtext, d2); err != nil {
+			return err
 		}
 		out := v1Patch(v1Node(c.A), d2)
 		if !out.OK() {
@@ -679,3 +689,38 @@ func replaceArrays(t *rapid.T, v val.V) val.V {
 func init() { Register("C18", "patched", checkC18Patched) }
 
 func TestC18Patched(t *testing.T) { RunRandom(t, "C18", "patched", genC18Patched, checkC18Patched) }
+
+// v1FileAgrees: the v1 file entry points (ReadDiffFile, ReadPatchFile,
+// ReadMergeFile) read what the string entry points read; tried on one text
+// in sixteen.
+func v1FileAgrees(kind, text string, fromString v1.Diff) error {
+	if val.FNV64(kind+text)%16 != 0 {
+		return nil
+	}
+	dir, cleanup := caseDir()
+	defer cleanup()
+	writeFile(dir, "d.txt", text)
+	path := filepath.Join(dir, "d.txt")
+	var df v1.Diff
+	var ferr error
+	msg, p := jdx.Guard(func() {
+		switch kind {
+		case "jd":
+			df, ferr = v1.ReadDiffFile(path)
+		case "patch":
+			df, ferr = v1.ReadPatchFile(path)
+		default:
+			df, ferr = v1.ReadMergeFile(path)
+		}
+	})
+	if p {
+		return rec.Violated("v1 file reader (%s) panicked: %s\ntext:\n%s", kind, msg, text)
+	}
+	if ferr != nil {
+		return rec.Violated("v1 file reader (%s) rejects a file holding what the string reader accepts: %v\ntext:\n%s", kind, ferr, text)
+	}
+	if df.Render() != fromString.Render() {
+		return rec.Violated("v1 file reader (%s) gives another diff than the string reader\nfile:\n%s\nstring:\n%s\ntext:\n%s", kind, df.Render(), fromString.Render(), text)
+	}
+	return nil
+}
